@@ -24,6 +24,7 @@ func init() {
 }
 
 func runC21(c *eng.Ctx) {
+	defer runC21Grow(c)
 	p := c.P
 	S := "tsdb:CircularExemplarStorage"
 	// ---- R1 lockset ----
